@@ -102,3 +102,5 @@ def check(ctx):
     # dependency (seed C06-6): the block queues under the channels (read before release / commit)
     ctx.import_rules("C03", r"^spsc/(pop|bulk_pop)-read-then|^mpsc/take-then-commit|^mpsc/bulk-commit-equals-range|^mpsc/fast-bulk")
     taken_waiter_is_woken(ctx, only=r"sync::(mpsc|spsc)::InnerQueue\.(to_wake|wait_co)$")
+    ctx.import_rules("C07", r"^(mpsc|spsc|mpmc)/(starts-|drop-|clone-|send-|endpoint-|last-|only-last)|^spsc-(blocker|park)/")
+    ctx.import_rules("C02", r"^atomic-option/")
